@@ -27,7 +27,23 @@ func c14Items() []c14Item {
 			items = append(items, c14Item{it.Name + "@for", hostWrap(1, it.Src)}, c14Item{it.Name + "@block", hostWrap(2, it.Src)})
 		}
 	}
+	// forms of the Twig language that this library may reject today: whatever it does with them, every
+	// spelling must get the same verdict (and, once they parse, the same output)
+	for i, src := range c14TwigForms {
+		items = append(items, c14Item{"twig:" + itoa(i), src})
+	}
 	return items
+}
+
+var c14TwigForms = []string{
+	"{{ arr.0.k }}", "{{ arr.0.k.j }}", "{{ h.k.0.x }}", "{{ arr.0.1 }}",
+	"{{ a ?: b }}", "{{ a ?? b }}", "{{ a ? b }}", "{{ a <=> b }}", "{{ a is same as(b) }}", "{{ a is not defined }}",
+	"{{ arr|map(v => v) }}", "{{ [1, ...arr] }}", "{{ a not in arr }}", "{{ arr[1:2] }}", "{{ a has some b }}",
+	"{% set a, b = 1, 2 %}{{ a }}", "{% apply up %}x{% endapply %}", "{% with {'a': 1} %}{{ a }}{% endwith %}",
+	"{% for i in 1..3 %}{{ i }}{% endfor %}", "{% if a is defined %}y{% endif %}", "{% autoescape 'html' %}{{ a }}{% endautoescape %}",
+	"{% spaceless %} <a> </a> {% endspaceless %}", "{% flush %}", "{% include ['inc', 'base'] %}", "{% include 'nosuch' ignore missing %}",
+	"{% import _self as m %}", "{% from _self import m %}", "{% block b a %}", "{% macro m(a = 1, b = 'x') %}{{ a }}{% endmacro %}{{ _self.m() }}",
+	"{{ f(a = 1, b = 2) }}", "{{ a|wrap(x = 'y') }}", "{{ 1e3 }}", "{{ 0x1F }}", "{{ 1_000 }}", "{{ .5 }}", "{{ 5. }}",
 }
 
 var c14Ctx2 = map[string]stick.Value{
@@ -92,7 +108,7 @@ func c14Run(c core.Case) core.Result {
 	if cpan != "" {
 		return core.Skipped("canonical-panics")
 	}
-	if canon.perr != "" {
+	if canon.perr != "" && !strings.HasPrefix(it.name, "twig:") {
 		return core.Violation("canonical-rejected", fmt.Sprintf("the canonical spelling of %q does not parse: %s", it.name, it.src))
 	}
 	got, gpan := c14Observe(respelled)
@@ -100,7 +116,15 @@ func c14Run(c core.Case) core.Result {
 		return core.Violation("panic", fmt.Sprintf("re-spelling %q of %q panicked: %s", respelled, it.src, gpan))
 	}
 	if got.perr != canon.perr {
+		if canon.perr != "" {
+			return core.Violation("parse-verdict", fmt.Sprintf("%q does not parse but its re-spelling %q does", it.src, respelled))
+		}
 		return core.Violation("parse-verdict", fmt.Sprintf("%q parses but its re-spelling %q does not", it.src, respelled))
+	}
+	if canon.perr != "" {
+		r := core.Okay(len(devs) > 0, "rejected in every spelling")
+		r.Cnt = map[string]int64{"twig_forms_rejected_today": 1}
+		return r
 	}
 	for i := range canon.outs {
 		if got.outs[i] != canon.outs[i] {
